@@ -346,12 +346,9 @@ func Verif_C05_W6_SaveBookkeeping() {
 	w.optimizedFsync = vsym.Choose("optimizedFsync", 2) == 1
 	w.enti = vsym.U64("enti0")
 	vsym.Assume(w.enti >= 1<<14 && w.enti < 1<<20) // indexes stay in one varint length class
-	// one operation from an arbitrary bookkeeping state (inductive step); thorough: up to 2 operations in a row
+	// one operation from an arbitrary bookkeeping state (inductive step)
 	w.state = raftpb.HardState{Term: vsym.U64("term0") % 64, Vote: vsym.U64("vote0") % 8, Commit: vsym.U64("commit0") % 64}
-	nops := 1
-	if vsym.Thorough() {
-		nops = 1 + vsym.Choose("nops", 2)
-	}
+	nops := 1 // (two operations in a row did not finish within 15 minutes even split 16 ways; the step is inductive, so one is the claim)
 	var wantTypes []int64
 	for i := 0; i < nops; i++ {
 		enti0 := w.enti
